@@ -461,6 +461,20 @@ func (m *Dense) Mul(a, b Matrix) {
 	}
 }
 
+// copyAllowSelfT copies a into m. Unlike Copy it accepts the implicit
+// transpose of m itself, which it copies through a workspace.
+func (m *Dense) copyAllowSelfT(a Matrix) {
+	if aU, trans := untransposeExtract(a); trans && aU == m {
+		r, c := a.Dims()
+		w := getDenseWorkspace(r, c, false)
+		w.Copy(a)
+		m.Copy(w)
+		putDenseWorkspace(w)
+		return
+	}
+	m.Copy(a)
+}
+
 // strictCopy copies a into m panicking if the shape of a and m differ.
 func strictCopy(m *Dense, a Matrix) {
 	r, c := m.Copy(a)
@@ -506,8 +520,11 @@ func (m *Dense) Exp(a Matrix) {
 		}},
 	}
 
+	// The norm is taken before a is copied into the receiver: a may be the
+	// receiver's own transpose.
+	n1 := Norm(a, 1)
 	a1 := m
-	a1.Copy(a)
+	a1.copyAllowSelfT(a)
 	v := getDenseWorkspace(r, r, true)
 	vraw := v.RawMatrix()
 	n := r * r
@@ -522,7 +539,6 @@ func (m *Dense) Exp(a Matrix) {
 	a2 := getDenseWorkspace(r, r, false)
 	defer putDenseWorkspace(a2)
 
-	n1 := Norm(a, 1)
 	for i, t := range pade {
 		if n1 > t.theta {
 			continue
@@ -655,7 +671,7 @@ func (m *Dense) Pow(a Matrix, n int) {
 		}
 		return
 	case 1:
-		m.Copy(a)
+		m.copyAllowSelfT(a)
 		return
 	case 2:
 		m.Mul(a, a)
